@@ -90,8 +90,17 @@ def checkCycle (inp obs : KV) : Option String × List (String × String) :=
   let o2 := batchList (obs.get "b2")
   let (o2mid, o2left) := splitAtLen e2.mid.length o2
   let expInfl : Int := if gen == 1 then -1 else if slots.isSome then e1.slotsUsed else 0
-  let exp := s!"b1={showBatches e1.mid}+{showBatches e1.left} inbuf1={e1.inbuf} needs1={total} infl1={expInfl} needsmid={sumCost e1.remaining} b2={showBatches e2.mid}+{showBatches e2.left} inbuf2={e2.inbuf} needs2={sumCost e1.remaining} needs3={sumCost e2.remaining} infl3={if gen == 1 then (-1 : Int) else 0}"
-  let got := s!"b1={showBatches o1mid}+{showBatches (sortBatches o1left)} inbuf1={obs.nat "inbuf1"} needs1={obs.nat "needs1"} infl1={obs.int "infl1"} needsmid={obs.nat "needsmid"} b2={showBatches o2mid}+{showBatches (sortBatches o2left)} inbuf2={obs.nat "inbuf2"} needs2={obs.nat "needs2"} needs3={obs.nat "needs3"} infl3={obs.int "infl3"}"
+  let exp : List (String × String) := [
+    ("b1", s!"{showBatches e1.mid}+{showBatches e1.left}"), ("inbuf1", toString e1.inbuf), ("needs1", toString total),
+    ("infl1", toString expInfl), ("needsmid", toString (sumCost e1.remaining)),
+    ("b2", s!"{showBatches e2.mid}+{showBatches e2.left}"), ("inbuf2", toString e2.inbuf),
+    ("needs2", toString (sumCost e1.remaining)), ("needs3", toString (sumCost e2.remaining)),
+    ("infl3", toString (if gen == 1 then (-1 : Int) else 0))]
+  let got : List (String × String) := [
+    ("b1", s!"{showBatches o1mid}+{showBatches (sortBatches o1left)}"), ("inbuf1", toString (obs.nat "inbuf1")),
+    ("needs1", toString (obs.nat "needs1")), ("infl1", toString (obs.int "infl1")), ("needsmid", toString (obs.nat "needsmid")),
+    ("b2", s!"{showBatches o2mid}+{showBatches (sortBatches o2left)}"), ("inbuf2", toString (obs.nat "inbuf2")),
+    ("needs2", toString (obs.nat "needs2")), ("needs3", toString (obs.nat "needs3")), ("infl3", toString (obs.int "infl3"))]
   let viol := monitorCycle c buf o1 (obs.nat "inbuf1") ++ monitorCycle c2 e1.remaining o2 (obs.nat "inbuf2")
     ++ (if obs.nat "cb1" != o1.length then [("C01", "batches-raised-differ-from-callbacks-started")] else [])
     ++ (if obs.nat "needs1" != total then [("C03", "demand-differs-from-outstanding-cost-after-cycle")] else [])
@@ -99,10 +108,25 @@ def checkCycle (inp obs : KV) : Option String × List (String × String) :=
         | some n => if obs.int "infl1" > n then [("C10", "inflight-above-limit")] else
                     if obs.int "infl1" != o1.length then [("C10", "inflight-differs-from-batches-in-progress")] else []
         | none => [])
+    -- C05 release order across both cycles (no slot limit): per watcher the batchable ids, and all single ids, increase
+    ++ (if slots.isNone then
+          let find (id : Nat) : Option Op := buf.find? (·.id == id)
+          let rel := ((o1 ++ o2).flatten).filterMap find
+          let incr (l : List Nat) : Bool := (l.zip (l.drop 1)).all (fun (x, y) => x < y)
+          let ws := (buf.map (·.w)).eraseDups
+          (if ws.any (fun w => !incr ((rel.filter (fun o => o.w == w && o.batchable)).map (·.id)))
+            then [("C05", "batchable-released-out-of-enqueue-order")] else []) ++
+          (if !incr ((rel.filter (fun o => !o.batchable)).map (·.id))
+            then [("C05", "non-batchable-released-out-of-enqueue-order")] else [])
+        else [])
     -- C08 work conservation on the observation: something is left although neither cut-off nor slots explain it
     ++ (let released := sumCost ((o1.flatten).filterMap (fun id => buf.find? (·.id == id)))
         let slotsLeft := match slots with | some n => decide (o1.length < n) | none => true
-        if obs.nat "inbuf1" > 0 && !(cutoff c released) && slotsLeft then [("C08", "cycle-stopped-early")] else [])
-  (if exp == got then none else some s!"expected {exp} observed {got}", viol)
+        (if obs.nat "inbuf1" > 0 && !(cutoff c released) && slotsLeft then [("C08", "cycle-stopped-early")] else []) ++
+        -- positive capacity, free slots, a backlog - and the cycle (hence, capacity being constant, every cycle) releases nothing
+        (if c.limited && inp.nat "cap" > 0 && !buf.isEmpty && o1.isEmpty && slotsLeft then
+          [("C08", if c.ge && c.allow == 0 then "positive-capacity-zero-allowance-releases-nothing" else "positive-capacity-releases-nothing")]
+         else []))
+  (diffFields exp got, viol)
 
 end GoBatcher.Driver
